@@ -283,6 +283,32 @@ def judgeC03 (pre post : Hub) (op : Op) (impl : ImplOut) : String :=
     | [] => "ok"
     | (c, m) :: _ => s!"violated:cross-backend-delivery:c{c}:{m}"
 
+/-- Digest entries that belong to a backend other than `b` (sessions, rooms, members, call, listeners, counts). -/
+def foreignEntries (d : List (List String)) (b : Nat) : List String :=
+  sortStrings <| d.filterMap fun t =>
+    let bk := match t.head? with
+      | some "se" => t[2]?
+      | some k => if ["ro", "rm", "ic", "rl", "ul", "ct"].contains k then t[1]? else none
+      | none => none
+    match bk with
+    | some x => if x ≠ s!"b{b}" then some (joinWith ":" t) else none
+    | none => none
+
+/-- C03, state side: nothing done on behalf of backend `b` changes what the server holds for any other
+backend (sessions with their room, permissions and queue, rooms and their members, listeners, counts).
+`st.lastDigest` is the implementation's state before the step. -/
+def judgeC03State (lastDigest : List (List String)) (pre : Hub) (op : Op) (impl : ImplOut) : String :=
+  match originBackend pre op with
+  | none => "na"
+  | some b =>
+    if lastDigest == [] || !impl.hasDigest then "na" else
+    let before := foreignEntries lastDigest b
+    let after := foreignEntries impl.digest b
+    if before == after then "ok"
+    else
+      let changed := (after.filter (!before.contains ·)) ++ (before.filter (!after.contains ·))
+      s!"violated:cross-backend-state-change:b{b}:{joinWith "," (changed.take 3)}"
+
 /-- C05: a (control) message reaches exactly the addressed sessions, once, with the true sender. -/
 def judgeC05 (pre : Hub) (op : Op) (impl : ImplOut) : String :=
   match op with
